@@ -10,6 +10,9 @@ open GlueVerif.C14
 #print axioms remove_keeps_inputs
 #print axioms remove_absent
 #print axioms remove_spec
+#print axioms reorder_is_permutation
+#print axioms remove_order_invariant
+#print axioms reorder_preserves_values
 #print axioms update_id_preserves_order
 #print axioms update_id_preserves_values
 #print axioms update_id_breaks_dependents
